@@ -239,6 +239,14 @@ func runMixedProp(c *fw.Ctx, prop string) {
 			}
 		}
 		o.Whitelist = dedupInts(o.Whitelist)
+		// one whitelisted purchaser owns no liquid native coins at all: everything it pays, it pays
+		// from eFUND (its books must still add up and be reported)
+		if r.Chance(60) && len(o.Whitelist) > 0 {
+			if k := o.Whitelist[r.Intn(len(o.Whitelist))]; k >= 2 {
+				o.NativeBalOf = map[int]int64{k: 0}
+				delete(o.Kinds, k)
+			}
+		}
 	case "C17":
 		w.Ent, w.Reg = 40, 35
 		o.Ent.MinAccepts = 1
